@@ -96,6 +96,14 @@ fn main() {
         }
         return;
     }
+    if argv.len() >= 4 && argv[1] == "--emit" {
+        // verif_replay --emit <dir> <template> <i64>...  : run the template and write its bindings with the real backend
+        let dir = std::path::PathBuf::from(&argv[2]);
+        pyxis::verif_templates::EMIT_DIR.with(|d| *d.borrow_mut() = Some(dir));
+        let refs: Vec<&str> = argv[4..].iter().map(|s| s.as_str()).collect();
+        println!("{}", run(&argv[3], &parse_args(&refs)));
+        return;
+    }
     if argv.len() < 2 {
         eprintln!("usage: verif_replay <template> <i64>...");
         std::process::exit(2);
